@@ -262,14 +262,14 @@ func init() {
 						if isNullish(inputVal.DefaultValue) {
 							return nil, nil
 						}
-						astVal := astFromValue(inputVal.DefaultValue, inputVal)
+						astVal := astFromValue(inputVal.DefaultValue, inputVal.Type)
 						return printer.Print(astVal), nil
 					}
 					if inputVal, ok := p.Source.(*InputObjectField); ok {
 						if inputVal.DefaultValue == nil {
 							return nil, nil
 						}
-						astVal := astFromValue(inputVal.DefaultValue, inputVal)
+						astVal := astFromValue(inputVal.DefaultValue, inputVal.Type)
 						return printer.Print(astVal), nil
 					}
 					return nil, nil
@@ -737,8 +737,36 @@ func astFromValue(value interface{}, ttype Type) ast.Value {
 		return val
 	}
 
-	if valueVal.Type().Kind() == reflect.Map {
-		// TODO: implement astFromValue from Map to Value
+	// Enum values are printed by NAME (the internal value may be anything).
+	if ttype, ok := ttype.(*Enum); ok {
+		if name, ok := ttype.Serialize(value).(string); ok {
+			return ast.NewEnumValue(&ast.EnumValue{Value: name})
+		}
+		return nil
+	}
+
+	// Input objects: a Go map is printed as an object literal, field by field.
+	if ttype, ok := ttype.(*InputObject); ok && valueVal.Type().Kind() == reflect.Map {
+		m, _ := value.(map[string]interface{})
+		names := make([]string, 0, len(m))
+		for name := range m {
+			names = append(names, name)
+		}
+		sort.Strings(names)
+		fields := []*ast.ObjectField{}
+		for _, name := range names {
+			fieldDef, ok := ttype.Fields()[name]
+			if !ok {
+				continue
+			}
+			if fieldAST := astFromValue(m[name], fieldDef.Type); fieldAST != nil {
+				fields = append(fields, ast.NewObjectField(&ast.ObjectField{
+					Name:  ast.NewName(&ast.Name{Value: name}),
+					Value: fieldAST,
+				}))
+			}
+		}
+		return ast.NewObjectValue(&ast.ObjectValue{Fields: fields})
 	}
 
 	if value, ok := value.(bool); ok {
